@@ -76,7 +76,9 @@ func handleExtensionsInits(p *Params) gqlerrors.FormattedErrors {
 
 // handleExtensionsParseDidStart runs the ParseDidStart functions for each extension
 func handleExtensionsParseDidStart(p *Params) ([]gqlerrors.FormattedError, parseFinishFuncHandler) {
-	fs := map[string]ParseFinishFunc{}
+	// finish functions in registration order (extensions may share a name)
+	var names []string
+	var fs []ParseFinishFunc
 	errs := gqlerrors.FormattedErrors{}
 	for _, ext := range p.Schema.extensions {
 		var (
@@ -93,12 +95,14 @@ func handleExtensionsParseDidStart(p *Params) ([]gqlerrors.FormattedError, parse
 			ctx, finishFn = ext.ParseDidStart(p.Context)
 			// update context
 			p.Context = ctx
-			fs[ext.Name()] = finishFn
+			names = append(names, ext.Name())
+			fs = append(fs, finishFn)
 		}()
 	}
 	return errs, func(err error) []gqlerrors.FormattedError {
 		errs := gqlerrors.FormattedErrors{}
-		for name, fn := range fs {
+		for i, fn := range fs {
+			name := names[i]
 			func() {
 				// catch panic from a finishFn
 				defer func() {
@@ -115,7 +119,9 @@ func handleExtensionsParseDidStart(p *Params) ([]gqlerrors.FormattedError, parse
 
 // handleExtensionsValidationDidStart notifies the extensions about the start of the validation process
 func handleExtensionsValidationDidStart(p *Params) ([]gqlerrors.FormattedError, validationFinishFuncHandler) {
-	fs := map[string]ValidationFinishFunc{}
+	// finish functions in registration order (extensions may share a name)
+	var names []string
+	var fs []ValidationFinishFunc
 	errs := gqlerrors.FormattedErrors{}
 	for _, ext := range p.Schema.extensions {
 		var (
@@ -132,12 +138,14 @@ func handleExtensionsValidationDidStart(p *Params) ([]gqlerrors.FormattedError, 
 			ctx, finishFn = ext.ValidationDidStart(p.Context)
 			// update context
 			p.Context = ctx
-			fs[ext.Name()] = finishFn
+			names = append(names, ext.Name())
+			fs = append(fs, finishFn)
 		}()
 	}
 	return errs, func(errs []gqlerrors.FormattedError) []gqlerrors.FormattedError {
 		extErrs := gqlerrors.FormattedErrors{}
-		for name, finishFn := range fs {
+		for i, finishFn := range fs {
+			name := names[i]
 			func() {
 				// catch panic from a finishFn
 				defer func() {
@@ -154,7 +162,9 @@ func handleExtensionsValidationDidStart(p *Params) ([]gqlerrors.FormattedError, 
 
 // handleExecutionDidStart handles the ExecutionDidStart functions
 func handleExtensionsExecutionDidStart(p *ExecuteParams) ([]gqlerrors.FormattedError, executionFinishFuncHandler) {
-	fs := map[string]ExecutionFinishFunc{}
+	// finish functions in registration order (extensions may share a name)
+	var names []string
+	var fs []ExecutionFinishFunc
 	errs := gqlerrors.FormattedErrors{}
 	for _, ext := range p.Schema.extensions {
 		var (
@@ -171,12 +181,14 @@ func handleExtensionsExecutionDidStart(p *ExecuteParams) ([]gqlerrors.FormattedE
 			ctx, finishFn = ext.ExecutionDidStart(p.Context)
 			// update context
 			p.Context = ctx
-			fs[ext.Name()] = finishFn
+			names = append(names, ext.Name())
+			fs = append(fs, finishFn)
 		}()
 	}
 	return errs, func(result *Result) []gqlerrors.FormattedError {
 		extErrs := gqlerrors.FormattedErrors{}
-		for name, finishFn := range fs {
+		for i, finishFn := range fs {
+			name := names[i]
 			func() {
 				// catch panic from a finishFn
 				defer func() {
@@ -193,7 +205,9 @@ func handleExtensionsExecutionDidStart(p *ExecuteParams) ([]gqlerrors.FormattedE
 
 // handleResolveFieldDidStart handles the notification of the extensions about the start of a resolve function
 func handleExtensionsResolveFieldDidStart(exts []Extension, p *executionContext, i *ResolveInfo) ([]gqlerrors.FormattedError, resolveFieldFinishFuncHandler) {
-	fs := map[string]ResolveFieldFinishFunc{}
+	// finish functions in registration order (extensions may share a name)
+	var names []string
+	var fs []ResolveFieldFinishFunc
 	errs := gqlerrors.FormattedErrors{}
 	for _, ext := range p.Schema.extensions {
 		var (
@@ -210,12 +224,14 @@ func handleExtensionsResolveFieldDidStart(exts []Extension, p *executionContext,
 			ctx, finishFn = ext.ResolveFieldDidStart(p.Context, i)
 			// update context
 			p.Context = ctx
-			fs[ext.Name()] = finishFn
+			names = append(names, ext.Name())
+			fs = append(fs, finishFn)
 		}()
 	}
 	return errs, func(val interface{}, err error) []gqlerrors.FormattedError {
 		extErrs := gqlerrors.FormattedErrors{}
-		for name, finishFn := range fs {
+		for i, finishFn := range fs {
+			name := names[i]
 			func() {
 				// catch panic from a finishFn
 				defer func() {
